@@ -514,7 +514,12 @@ func (in *instance) ServeHTTP(w http.ResponseWriter, r *http.Request) {
 		}
 	}
 	for _, x := range def.xh {
-		hdrs = append(hdrs, "H."+x[0]+"="+escv(r.Header.Get(x[0])))
+		v := r.Header.Get(x[0])
+		if strings.EqualFold(x[0], "Host") {
+			// round 6 (repair 789fa67): a Host header of the request definition is the host the target sees
+			v = r.Host
+		}
+		hdrs = append(hdrs, "H."+x[0]+"="+escv(v))
 	}
 	sort.Strings(hdrs)
 	h := "-"
